@@ -60,8 +60,12 @@ type suiteTree struct {
 	id            int
 	family, ktype string
 	lines         []*recLine
-	nIns          int
+	nIns, nLines  int
 	truncated     bool
+	big           bool                // validated through key-sample projections
+	m             int                 // number of hash classes
+	slots         map[int]bool        // the classes of the chosen projections
+	present       map[string]struct{} // pass 2: the history's ideal content (all keys)
 }
 
 // suiteKey is one key of a tree's universe.
@@ -154,34 +158,115 @@ func cmdSuite(args []string) {
 	}
 	trees := map[int]*suiteTree{}
 	var order []int
-	for _, f := range files {
-		fh, err := os.Open(f)
-		if err != nil {
-			fatal("%v", err)
+	// pass 1: how large is each tree? (tree ids are per process: qualified by the file they come from)
+	head := func(line []byte) (string, int) {
+		// {"op":"X","id":N...
+		if !bytes.HasPrefix(line, []byte(`{"op":"`)) {
+			return "", 0
 		}
-		sc := bufio.NewScanner(fh)
-		sc.Buffer(make([]byte, 1<<20), 1<<30)
-		for sc.Scan() {
-			e := &recLine{}
-			if err := json.Unmarshal(sc.Bytes(), e); err != nil {
-				fatal("bad record in %s: %v", f, err)
-			}
-			switch e.Op {
-			case "new":
-				trees[e.ID] = &suiteTree{id: e.ID, family: e.Family, ktype: e.Ktype}
-				order = append(order, e.ID)
-			case "Truncated":
-				trees[e.ID].truncated = true
-			default:
-				t := trees[e.ID]
-				if e.Op == "Insert" {
-					t.nIns++
-				}
-				t.lines = append(t.lines, e)
-			}
+		r := line[7:]
+		q := bytes.IndexByte(r, '"')
+		if q < 0 || !bytes.HasPrefix(r[q:], []byte(`","id":`)) {
+			return "", 0
 		}
-		fh.Close()
+		op := string(r[:q])
+		r = r[q+7:]
+		n := 0
+		for _, c := range r {
+			if c < '0' || c > '9' {
+				break
+			}
+			n = n*10 + int(c-'0')
+		}
+		return op, n
 	}
+	scanAll := func(f func(fi int, line []byte)) {
+		for fi, fn := range files {
+			fh, err := os.Open(fn)
+			if err != nil {
+				fatal("%v", err)
+			}
+			sc := bufio.NewScanner(fh)
+			sc.Buffer(make([]byte, 1<<20), 1<<30)
+			for sc.Scan() {
+				f(fi, sc.Bytes())
+			}
+			fh.Close()
+		}
+	}
+	scanAll(func(fi int, line []byte) {
+		op, id := head(line)
+		id += fi << 32
+		switch op {
+		case "":
+			fatal("bad record: %s", tail(string(line), 200))
+		case "new":
+			e := &recLine{}
+			json.Unmarshal(line, e)
+			trees[id] = &suiteTree{id: id, family: e.Family, ktype: e.Ktype}
+			order = append(order, id)
+		case "Truncated":
+			trees[id].truncated = true
+		case "Insert":
+			trees[id].nIns++
+		}
+	})
+	for _, t := range trees {
+		if t.nIns > *maxN {
+			// validated through key-sample projections: only the calls on keys of the chosen hash classes are kept
+			t.big = true
+			t.m = (t.nIns + *maxN/2 - 1) / (*maxN / 2)
+			t.slots = map[int]bool{}
+			for r := 0; r < *nproj && r < t.m; r++ {
+				t.slots[(r+int(*seed))%t.m] = true
+			}
+			t.present = map[string]struct{}{}
+		}
+	}
+	// pass 2
+	scanAll(func(fi int, line []byte) {
+		op, id := head(line)
+		if op == "new" || op == "Truncated" {
+			return
+		}
+		t := trees[id+fi<<32]
+		e := &recLine{}
+		if err := json.Unmarshal(line, e); err != nil {
+			fatal("bad record: %v", err)
+		}
+		t.nLines++
+		if !t.big {
+			t.lines = append(t.lines, e)
+			return
+		}
+		keep := e.K == nil
+		if e.K != nil {
+			kid, _ := suiteIdent(t.family, *e.K)
+			switch e.Op {
+			case "Insert":
+				t.present[kid] = struct{}{}
+			case "Delete":
+				delete(t.present, kid)
+			}
+			keep = t.slots[hashMod(kid, t.m)]
+		}
+		e.total = len(t.present)
+		if !keep {
+			return
+		}
+		if len(e.Keys) > 0 {
+			var ks, vs []string
+			for i, raw := range e.Keys {
+				kid, _ := suiteIdent(t.family, raw)
+				if t.slots[hashMod(kid, t.m)] {
+					ks = append(ks, strings.Clone(raw))
+					vs = append(vs, strings.Clone(e.Vals[i]))
+				}
+			}
+			e.Keys, e.Vals = ks, vs
+		}
+		t.lines = append(t.lines, e)
+	})
 	if !*keep {
 		os.RemoveAll(recdir)
 	}
@@ -269,13 +354,13 @@ func suiteEmitTree(bw *bufio.Writer, t *suiteTree, maxN, nproj int, seed int64, 
 		k.inserted = k.inserted || inserted
 		return k
 	}
-	present := map[string]bool{} // the history's ideal content, for the size of projections
+	present := map[string]bool{} // the history's ideal content (whole trees; projections got theirs while reading)
 	for _, e := range t.lines {
 		add(e.K, e.Kck, e.Op == "Insert")
 		add(e.A, e.Ack, false)
 		add(e.B, e.Bck, false)
 		add(e.P, e.Pck, false)
-		if e.K != nil {
+		if e.K != nil && !t.big {
 			id, _ := suiteIdent(t.family, *e.K)
 			switch e.Op {
 			case "Insert":
@@ -284,7 +369,9 @@ func suiteEmitTree(bw *bufio.Writer, t *suiteTree, maxN, nproj int, seed int64, 
 				delete(present, id)
 			}
 		}
-		e.total = len(present)
+		if !t.big {
+			e.total = len(present)
+		}
 	}
 	all := make([]*suiteKey, 0, len(keys))
 	for _, k := range keys {
@@ -331,15 +418,19 @@ func suiteEmitTree(bw *bufio.Writer, t *suiteTree, maxN, nproj int, seed int64, 
 			}
 		}
 	}
-	if len(all) <= maxN {
+	if !t.big {
 		st.small++
 		suiteEmitSegment(bw, t, all, nil, st, first)
 		return
 	}
 	st.projected++
-	m := (len(all) + maxN/2 - 1) / (maxN / 2)
-	for r := 0; r < nproj && r < m; r++ {
-		slot := (r + int(seed)) % m
+	m := t.m
+	var slots []int
+	for sl := range t.slots {
+		slots = append(slots, sl)
+	}
+	sort.Ints(slots)
+	for _, slot := range slots {
 		var sub []*suiteKey
 		in := map[string]bool{}
 		for _, k := range all {
